@@ -227,7 +227,7 @@ def _entries(ctx, quick):
         batches.append(out)
     parts = []
     for b in batches:
-        lines = open(b).read().splitlines()
+        lines = nl_lines(b)
         os.remove(b)
         for j in range(6):
             sub = lines[j::6]
